@@ -68,7 +68,7 @@ def select(ds, quick, seed):
     for c in ds:
         by[c["cls"]].append(c)
     cap = {"truncate": 160, "brokenUtf8": 60, "illegalChar": 50, "loneSurrogate": 40, "fffe": 40, "nul": 30, "numberLiteral": 120, "cdataBracket": 80,
-           "numberFormat": 50, "numberValue": 40, "dropTag": 40, "dupTag": 40, "swapTag": 40, "unclosedQuote": 30, "unknownXslAttribute": 25,
+           "numberFormat": 50, "numberValue": 40, "dropTag": 40, "dupTag": 40, "swapTag": 40, "unclosedQuote": 30,
            "nonExpression": 110}
     out = []
     for cls in sorted(by):
@@ -371,6 +371,9 @@ def finding_key(ex, k, it):
     call = next((x for x in reversed(ex[:k]) if x.get("e") == "Call"), None)
     if call is not None and call.get("cls") == "seed":       # the crash is in a call on a fixed well-formed input
         fam = "seed"
+    elif sym.endswith("(no library frame)"):                  # no call site to name (wild jump): the variant of the class names the case
+        v = variant_of(it)
+        fam = "%s%s" % (it["cls"], (" [" + v + "]") if v else "")
     return "%s | %s" % (fam, sym)
 
 
